@@ -300,7 +300,9 @@ where
     · cases h
     · split at h
       · cases h; rfl
-      · cases h; rfl
+      · split at h
+        · cases h
+        · split at h <;> (cases h; rfl)
       · cases h; rfl
       · cases h; rfl
       · split at h
@@ -318,7 +320,7 @@ theorem complete_is_spec (script : List Act) (hc : Spec.completes script false =
     w.view.1 = Spec.status script ∧ w.view.2.2 = Spec.body script ∧
     ∀ k, hget w.view.2.1 k = Spec.header script k := by
   intro w
-  obtain ⟨h1, h2, h3⟩ := doneBranch_init (runTW TW.init script)
+  obtain ⟨h1, h2, h3⟩ := doneBranch_init (runTW TW.init script) (by rw [runTW_flushed]; rfl)
   refine ⟨?_, ?_, ?_⟩
   · show w.code = _
     rw [h1, runTW_code _ _ rfl rfl rfl hc]
@@ -498,21 +500,41 @@ example :
 
 example : Spec.complete exScript = { code := 404, hdrs := [(1, 7)], body := [97, 98, 99] } := by decide
 
-/-! ### `Flush` (outside the quantified behaviours): what the code that exists does -/
+/-! ### `Flush`: witnesses of the pinned behaviour (before fixes/C04-flush-after-timeout.patch), and the fixed one -/
 
-/-- A handler that flushes before the deadline: the client has 200 + "a", the timeout branch then appends the
-reason behind it — a mixture.  (`Flush` also drops the buffered status 404.) -/
+/-- PINNED.  A handler that flushes after the timeout response was sent: bytes buffered before the deadline are
+appended behind the 503 body although `timedOut` is set (also replayed on the real code: `rest deadline 1 plain pos w:a f`). -/
+theorem flush_after_timeout_reaches_client :
+    (runLabelsPinned [82, 84] (St.init [.write [97], .flush])
+      [.h, .env .deadline, .mTimeout, .mAdv, .mAdv, .mAdv, .h]).map (fun s => (s.w.view, s.tw.timedOut)) =
+    some ((503, [], [82, 84, 97]), true) := by decide
+
+/-- PINNED.  Without any timeout: `WriteHeader(404); Write("a"); Flush()` reaches the client as 200 — the buffered
+status is dropped by `Flush` (real code: `rest none 0 plain pos c:404 w:a f`). -/
+theorem flush_drops_status_pinned :
+    (runLabelsPinned [82, 84] (St.init [.writeHeader 404, .write [97], .flush]) [.h, .h, .h, .h, .mDone]).map
+      (fun s => (s.w.view, s.pc)) = some ((200, [], [97]), .retDone) := by decide
+
+/-- FIXED: the same two runs on the model of the fixed code -/
+theorem flush_after_timeout_fixed :
+    (runLabels [82, 84] (St.init [.write [97], .flush])
+      [.h, .env .deadline, .mTimeout, .mAdv, .mAdv, .mAdv, .h]).map (fun s => (s.w.view, s.tw.timedOut)) =
+    some ((503, [], [82, 84]), true) ∧
+    (runLabels [82, 84] (St.init [.writeHeader 404, .write [97], .flush]) [.h, .h, .h, .h, .mDone]).map
+      (fun s => (s.w.view, s.pc)) = some ((404, [], [97]), .retDone) := ⟨by decide, by decide⟩
+
+/-- INHERENT to streaming (pinned and fixed alike, `open` finding flush-streamed-then-timeout): what was flushed before
+the deadline is with the client; the timeout branch can only append its reason behind it — status and body are a mixture. -/
 theorem flush_before_timeout_mixture :
     (runLabels [82, 84] (St.init [.writeHeader 404, .write [97], .flush, .write [98]])
       [.h, .h, .h, .env .deadline, .mTimeout, .mAdv, .mAdv, .mAdv]).map (fun s => (s.w.view, s.pc)) =
-    some ((200, [], [97, 82, 84]), .retTimeout .deadline) := by decide
+    some ((404, [], [97, 82, 84]), .retTimeout .deadline) ∧
+    (runLabelsPinned [82, 84] (St.init [.writeHeader 404, .write [97], .flush, .write [98]])
+      [.h, .h, .h, .env .deadline, .mTimeout, .mAdv, .mAdv, .mAdv]).map (fun s => (s.w.view, s.pc)) =
+    some ((200, [], [97, 82, 84]), .retTimeout .deadline) := ⟨by decide, by decide⟩
 
-/-- A handler that flushes after the timeout response was sent: bytes buffered before the deadline are appended
-behind the 503 body although `timedOut` is set. -/
-theorem flush_after_timeout_reaches_client :
-    (runLabels [82, 84] (St.init [.write [97], .flush])
-      [.h, .env .deadline, .mTimeout, .mAdv, .mAdv, .mAdv, .h]).map (fun s => (s.w.view, s.tw.timedOut)) =
-    some ((503, [], [82, 84, 97]), true) := by decide
+/-- FIXED: `Flush` waits for `tw.mu` — while the timeout branch is writing, the handler's Flush is not enabled -/
+example : runLabels [82, 84] (St.init [.write [97], .flush]) [.h, .env .deadline, .mTimeout, .h] = none := by decide
 
 /-! ## C. zRPC server interceptor and fx.DoWithTimeout -/
 
